@@ -13,17 +13,21 @@
       [serve_decision fx], [serve_proxy fx], [serve_envoy fx]  = error kind | matched rule + hand-over of
     the three entry points.  [fx : fixes] says which recorded findings are repaired in the modelled tree
     (one flag per finding with a repair: F1 = fix: b2286d8, F2 = 7c3e9fc, F3 = a5ef279, F4 = ae6db4f,
-    F6 = 06faa19, F7 = 19923cd).  [pinned] = none, [repo_now] = [all_fixed] = all of them (/repo today).
-    Every theorem holds for every [fx]; the guard of a repaired finding is switched off, so for
-    [repo_now] only C13-F5 (cookies), C13-F8 (Headers() as a whole) and C13-F3b (blanks around the values
-    of a header that is added twice) guard anything.  The pinned behaviour of each repaired finding is
+    F6 = 06faa19, F7 = 19923cd; F9 = candidate fixes/C13-F9.diff).  [pinned] = none, [all_fixed] = all,
+    [repo_now] = all but F9 (/repo today).  Every theorem holds for every [fx]; the guard of a repaired
+    finding is switched off, so for [repo_now] only C13-F5 (a Cookie(n) read whose OWN parts of the Cookie
+    line are not plain; sanitised cookie values on hand-over), C13-F8 (Headers() read as a whole map: the
+    key Host — every other key agrees, [C13_headers_agree_except_host]), C13-F9 (the body when Envoy conveys
+    it in the string field) and C13-F3b (blanks around the values of a header that is added twice) guard
+    anything.  [l_pack L] says which CheckRequest field carries the body under Envoy; all statements
+    hold for each conveyance.  The pinned behaviour of each repaired finding is
     kept as a [..._pinned_refuted] witness.
 
     [wf_lreqb L]: header names are tokens, no Host / X-Forwarded-* / Forwarded line (C09), values
     without surrounding blanks, at most one Cookie line, a path that starts with "/" and is validly
     encoded.  [guards_fire fx L]: one of the findings that is open in [fx] applies to a read
     the pipeline makes on L, to the encoded-slash check or to what it hands over (see C13/Proofs.v). *)
-From HV Require Import Base.Prelude Base.GoUrl C09.Model C13.Model C13.Proofs.
+From HV Require Import Base.Prelude Base.GoUrl C13.Http C13.Model C13.Proofs.
 
 (** ------------------------------------------------------------------ the tree as it is (/repo, abe584c) *)
 
@@ -37,25 +41,22 @@ Theorem C13_three_entry_points_agree_repo : forall decode find L,
 Proof. intros decode find L. exact (three_entry_points_agree decode find repo_now L). Qed.
 Print Assumptions C13_three_entry_points_agree_repo.
 
-(** the guards that are left in the repaired tree: per read of the view ... *)
-Theorem C13_repo_guards : forall decode s caps L q,
-  guard_query decode repo_now s caps L q = g_F5_query L q || g_F8_query q.
-Proof. exact all_fixed_guards. Qed.
-Print Assumptions C13_repo_guards.
+(** (Read-outs of the guard definitions for [repo_now]; by unfolding.  Listed for the reader, not
+    counted as property theorems.) *)
+Lemma C13_repo_guards : forall decode s caps L q,
+  guard_query decode repo_now s caps L q = g_F5_query L q || g_F8_query q || g_F9_query L q.
+Proof. exact repo_guards. Qed.
 
-(** ... and per request: no guard for captures, header names, Host, URL parts, the encoded-slash
-    check, the body *)
-Theorem C13_repo_guards_fire : forall decode find L,
+Lemma C13_repo_guards_fire : forall decode find L,
   guards_fire decode find repo_now L =
   match find (lookup_of (build_http L)) with
   | None => false
   | Some (rl, caps) =>
     let ans := answer (acc_http decode L) (http_mech L (r_slashes rl) caps) in
-    existsb (fun q => g_F5_query L q || g_F8_query q) (trace ans (r_prog rl)) ||
-    g_F3_adds true (snd (run_prog ans (r_prog rl))) || g_F5_adds (snd (run_prog ans (r_prog rl)))
+    existsb (fun q => g_F5_query L q || g_F8_query q || g_F9_query L q) (trace ans (rule_prog rl)) ||
+    g_F3_adds true (snd (run_prog ans (rule_prog rl))) || g_F5_adds (snd (run_prog ans (rule_prog rl)))
   end.
 Proof. exact repo_guards_fire. Qed.
-Print Assumptions C13_repo_guards_fire.
 
 (** the encoded-slash check rejects at all entry points alike *)
 Theorem C13_slash_check_agrees_repo : forall find L rl caps,
@@ -114,13 +115,29 @@ Theorem C13_three_entry_points_agree : forall decode find fx L,
 Proof. exact three_entry_points_agree. Qed.
 Print Assumptions C13_three_entry_points_agree.
 
-(** the decision and the proxy service share requestcontext.RequestContext: no guard at all *)
-Theorem C13_decision_proxy_same_execution : forall decode find fx L,
+(** (The decision and the proxy service are ONE Go type, requestcontext.RequestContext, and one model
+    function: that they execute alike is definitional here and tied to the code by the correspondence
+    run only.  Not counted as a property theorem.) *)
+Lemma C13_decision_proxy_same_execution : forall decode find fx L,
   s_err (serve_decision decode find fx L) = s_err (serve_proxy decode find fx L) /\
   s_rule (serve_decision decode find fx L) = s_rule (serve_proxy decode find fx L) /\
   forall adds, ho_headers (finalize_decision (fx_F3 fx) adds) = ho_headers (finalize_proxy (fx_F3 fx) adds).
 Proof. exact decision_proxy_same_execution. Qed.
-Print Assumptions C13_decision_proxy_same_execution.
+
+(** Headers(): every key other than Host has the same value in both maps, for all header multisets;
+    the key Host is the whole of C13-F8 *)
+Theorem C13_headers_agree_except_host : forall L k,
+  wf_lreqb L = true -> String.eqb k "Host" = false ->
+  assoc_opt k (headers_http (http_hdrs L) (l_host L)) = assoc_opt k (canonicalize_headers (envoy_wire_hdrs L)).
+Proof. exact headers_agree_except_host. Qed.
+Print Assumptions C13_headers_agree_except_host.
+
+Theorem C13_headers_host_key : forall L,
+  wf_lreqb L = true ->
+  assoc_opt "Host" (headers_http (http_hdrs L) (l_host L)) = Some (l_host L) /\
+  assoc_opt "Host" (canonicalize_headers (envoy_wire_hdrs L)) = None.
+Proof. exact headers_host_key. Qed.
+Print Assumptions C13_headers_host_key.
 
 (** the two header accessors: requestcontext's Header() with a canonical name other than Host reads
     what Envoy's canonicalised header map holds under that name — for all header multisets *)
@@ -150,13 +167,19 @@ Theorem C13_header_accessors_agree : forall fx L n,
 Proof. exact header_agree. Qed.
 Print Assumptions C13_header_accessors_agree.
 
-(** the two cookie readers (net/http's and grpcv3's) agree on every plain Cookie line, for every name *)
+(** the two cookie readers (net/http's and grpcv3's) find the same value under the name [n] whenever
+    the parts of the Cookie line that CONCERN [n] (one of the readers takes their name to be [n]) are
+    plain — whatever the other parts look like; in particular on a wholly plain line for every name *)
 Theorem C13_cookie_readers_agree : forall n line,
-  plain_line line = true ->
+  plain_for n line = true ->
   http_cookie [line] n =
   match first_some (envoy_cookie_part n) (split_on ";" line) with Some v => v | None => ""%string end.
 Proof. exact cookie_line_agree. Qed.
 Print Assumptions C13_cookie_readers_agree.
+
+Theorem C13_plain_line_plain_for : forall n line, plain_line line = true -> plain_for n line = true.
+Proof. exact plain_line_plain_for. Qed.
+Print Assumptions C13_plain_line_plain_for.
 
 (** ------------------------------------------------------------------ the repaired findings, documented.
     [tree_Fi] = the repaired tree without the repair of C13-Fi.  Each witness: a well-formed request on
@@ -258,6 +281,15 @@ Theorem C13_F5_refuted_handover : forall fixed3,
 Proof. exact F5_refuted_handover. Qed.
 Print Assumptions C13_F5_refuted_handover.
 
+Theorem C13_F9_refuted :
+  wf_lreqb w9_req = true /\ g_F9_query w9_req QBody = true /\ guards_fire w_decode w7_find repo_now w9_req = true /\
+  s_handover (serve_decision w_decode w7_find repo_now w9_req) = Some {| ho_headers := [("X-Body", "{""user"":1}")]%string; ho_cookies := [] |} /\
+  s_handover (serve_envoy w_decode w7_find repo_now w9_req) = Some {| ho_headers := [("X-Body", json_empty_string)]; ho_cookies := [] |} /\
+  guards_fire w_decode w7_find all_fixed w9_req = false /\
+  serve_decision w_decode w7_find all_fixed w9_req = serve_envoy w_decode w7_find all_fixed w9_req.
+Proof. exact F9_refuted. Qed.
+Print Assumptions C13_F9_refuted.
+
 Theorem C13_F8_refuted :
   g_F8_query QHeaders = true /\ guards_fire w_decode w8_find repo_now w6_req = true /\
   s_handover (serve_decision w_decode w8_find repo_now w6_req) = Some {| ho_headers := [("X-Host", "a.example.com")]%string; ho_cookies := [] |} /\
@@ -287,3 +319,12 @@ Theorem C13_nonvacuous_pinned :
     Some {| ho_headers := [("X-Q", "v=2")]%string; ho_cookies := [("c", "application/json")]%string |}.
 Proof. exact nonvacuous_pinned. Qed.
 Print Assumptions C13_nonvacuous_pinned.
+
+(** ... and by a denial that the rule's error pipeline answers with a redirect whose target echoes a read *)
+Theorem C13_nonvacuous_redirect :
+  guards_fire w_decode nv3_find repo_now nv2_req = false /\
+  s_err (serve_envoy w_decode nv3_find repo_now nv2_req) =
+    Some (ERedirect "http://login.example.com/?o=https://a.example.com:8443/files/report.pdf?v=2") /\
+  serve_decision w_decode nv3_find repo_now nv2_req = serve_envoy w_decode nv3_find repo_now nv2_req.
+Proof. exact nonvacuous_redirect. Qed.
+Print Assumptions C13_nonvacuous_redirect.
